@@ -69,6 +69,9 @@ func genC09Line(t *simrt.Tape) string {
 	switch t.Choose(K, 10) {
 	case 0, 1, 2:
 		c := c09Commands[t.Choose(K, len(c09Commands))]
+		if v := treeVocab(); t.Bool(K, 30) {
+			c = v.commands[t.Choose(K, len(v.commands))]
+		}
 		n := t.Choose(K, 3)
 		for i := 0; i < n; i++ {
 			c += " " + c09Value(t)
@@ -79,6 +82,9 @@ func genC09Line(t *simrt.Tape) string {
 		return c
 	case 3, 4, 5:
 		o := c09Options[t.Choose(K, len(c09Options))]
+		if v := treeVocab(); t.Bool(K, 30) {
+			o = v.options[t.Choose(K, len(v.options))]
+		}
 		switch t.Choose(K, 5) {
 		case 0:
 			return o
@@ -408,6 +414,9 @@ func c09Web(x *xctx) *violation {
 		m := t.Choose(K, 4)
 		for j := 0; j < m; j++ {
 			key := []string{"f", "i", "h", "s", "sf", "tf", "ti", "ts", "th", "n", "nf", "ef", "g", "sort", "si", "unit", "calltree", "trim", "config", "prunefrom", "mean", "norm", "zzz"}[t.Choose(K, 23)]
+			if v := treeVocab(); t.Bool(K, 25) {
+				key = v.urlparams[t.Choose(K, len(v.urlparams))]
+			}
 			q.Set(key, c09Value(t))
 		}
 		r := path
@@ -471,7 +480,17 @@ func c09Web(x *xctx) *violation {
 // c09BaseProfile derives a base profile from the session's profile: the same
 // stacks with every value column scaled by a seeded factor (0 empties the
 // column, -1 flips it), so that diffs meet zero totals and sign changes.
-func c09BaseProfile(t *simrt.Tape, prof []byte) []byte {
+func c09BaseProfile(t *simrt.Tape, prof []byte) (out []byte) {
+	// Preparing the workload must not be what trips over a defect of the
+	// tree: if it does, the session's own profile serves as the base.
+	defer func() {
+		if r := recover(); r != nil {
+			if simrt.IsAbort(r) {
+				panic(r)
+			}
+			out = prof
+		}
+	}()
 	p, err := profile.ParseData(prof)
 	if err != nil {
 		return prof
